@@ -180,6 +180,15 @@ func runCase(env *vlib.Env, idx int, rep *vlib.Reporter) {
 		id := &timeID{set: sets[r.Intn(3)], identity: r.Bytes(32), ts: bt + int64(r.Intn(3)) - 1}
 		tids = append(tids, id)
 	}
+	// release times beyond 2^63 (the contract's field is a uint64; the registry syncer stores
+	// int64(timestamp), i.e. a negative number): never due
+	for i := 0; i < 2; i++ {
+		if r.Chance(1, 2) {
+			far := []uint64{1 << 63, 1<<63 + 1005, 1<<64 - 1}[r.Intn(3)]
+			tids = append(tids, &timeID{set: sets[r.Intn(3)], identity: r.Bytes(32), ts: int64(far)})
+			rep.Obs("identities_with_release_time_beyond_2^63", 1)
+		}
+	}
 	var eids []*eventID
 	for i := 0; i < 6; i++ {
 		e := &eventID{set: sets[r.Intn(3)], identity: r.Bytes(32), prefix: r.Bytes(32), sender: common.BytesToAddress(r.Bytes(20)), expiry: int64(2 + r.Intn(10))}
@@ -362,7 +371,7 @@ func runCase(env *vlib.Env, idx int, rep *vlib.Reporter) {
 				continue
 			}
 			switch {
-			case id.ts > int64(b.Header.Time):
+			case uint64(id.ts) > b.Header.Time:
 				rep.Obs("suppressed_too_early", 1)
 				suppressedSeen = true
 			case id.ts == int64(b.Header.Time):
@@ -464,7 +473,7 @@ func judge(tr *epochkghandler.DecryptionTrigger, snap *pgmem.Snapshot, sets []*s
 				if row["decrypted"].(bool) {
 					return "time:already-decrypted"
 				}
-				if !(row["timestamp"].(int64) < int64(b.Header.Time)) {
+				if !(uint64(row["timestamp"].(int64)) < b.Header.Time) { // the registered release time is unsigned
 					return "time:before-release-time"
 				}
 				if s != nil && s.activation > int64(b.Number()) {
